@@ -38,6 +38,7 @@ pub fn run(pid: &str, c: &Case) {
         "C08" => crate::ikprops::c08(c),
         "C16" => c16(c),
         "C10" => c10(c),
+        "C13" => c13(c),
         "C15" => c15(c),
         "C11" => c11(c),
         "C14" => c14(c),
@@ -556,4 +557,46 @@ pub fn c15(c: &Case) {
         }
     }
     println!("native_cases={}", tried); bad.dedup(); for b in bad.iter().take(5) { println!("diff={}", b); } println!("reproduced={}", !bad.is_empty());
+}
+
+use rs_opw_kinematics::rrt::RRTPlanner;
+use std::sync::atomic::AtomicBool;
+/// C13: real planner runs (the RNG cannot be driven; every outcome must satisfy the property): start/goal exact, every node free and within the
+/// (non-wrapping) limits, consecutive nodes at most three steps apart; a raised flag gives Err
+pub fn c13(c: &Case) {
+    let (_o, p) = opw_of(c); let mut bad: Vec<String> = Vec::new(); let mut tried = 0; let (mut nok, mut nerr, mut maxlen) = (0, 0, 0usize);
+    let from = [-2.9, -1.8, -2.2, -3.0, -2.0, -3.0]; let to = [2.9, 1.8, 2.2, 3.0, 2.0, 3.0];
+    let cons = Constraints::new(from, to, 0.0);
+    let mk = |env: Vec<CollisionBody>| KinematicsWithShape::new(p, cons, [cube(0.04), cube(0.04), cube(0.04), cube(0.04), cube(0.04), cube(0.03)], cube(0.05), Pose::identity(), cube(0.03), Pose::translation(0.0, 0.0, 0.05), env, true);
+    let pairs = [([0.0, 0.2, 0.1, 0.0, 0.6, 0.0], [1.2, 0.3, -0.2, 0.5, 0.9, -0.4]), ([-0.8, 0.1, 0.3, 0.2, 0.5, 0.1], [0.9, 0.5, 0.0, -0.6, 0.7, 0.8])];
+    for (s, g) in pairs.iter() {
+        // an obstacle exactly where the tool is at the midpoint of the straight joint-space segment: the direct connection is blocked, so
+        // the planner needs several iterations and both trees grow
+        let free = mk(vec![]);
+        let mut mid = [0.0; 6]; for j in 0..6 { mid[j] = 0.5 * (s[j] + g[j]); }
+        let t = free.forward(&mid).translation;
+        for (blocked, step) in [(true, 0.05f64), (true, 0.15), (false, 0.1)] {
+            let env = if blocked { vec![CollisionBody { mesh: cube(c.fo("esz", 0.12) as f32), pose: nalgebra::Isometry3::translation(t.x as f32, t.y as f32, t.z as f32) }] } else { vec![] };
+            let k = mk(env);
+            if k.collides(s) || k.collides(g) { continue; }
+            let planner = RRTPlanner { step_size_joint_space: step, max_try: 3000, debug: false };
+            for _rep in 0..5 {
+                tried += 1;
+                let stop = AtomicBool::new(false);
+                match planner.plan_rrt(s, g, &k, &stop) {
+                    Err(_) => { nerr += 1; }
+                    Ok(path) => {
+                        nok += 1; maxlen = maxlen.max(path.len());
+                        if path.is_empty() || path[0] != *s { bad.push(format!("path does not begin with the start vector {:?}", s)); }
+                        if path.last() != Some(g) { bad.push(format!("path does not end with the goal vector {:?}", g)); }
+                        for n in &path { if k.collides(n) { bad.push(format!("path node {:?} is reported colliding", n)); } for j in 0..6 { if n[j] < from[j] - 1e-12 || n[j] > to[j] + 1e-12 { bad.push(format!("path node {:?} outside the limits", n)); } } }
+                        for w in path.windows(2) { let d: f64 = (0..6).map(|j| (w[0][j] - w[1][j]).powi(2)).sum::<f64>().sqrt(); if d > 3.0 * step + 1e-9 { bad.push(format!("consecutive nodes {:.4} apart, more than three steps of {}", d, step)); } }
+                    }
+                }
+                let raised = AtomicBool::new(true);
+                if planner.plan_rrt(s, g, &k, &raised).is_ok() { bad.push("planner returned a path although the cancellation flag was raised before planning".into()); }
+            }
+        }
+    }
+    println!("plans_ok={} plans_err={} longest_path={}", nok, nerr, maxlen); println!("native_cases={}", tried); bad.dedup(); for b in bad.iter().take(5) { println!("diff={}", b); } println!("reproduced={}", !bad.is_empty());
 }
